@@ -227,8 +227,20 @@ func c04Scenarios(thorough bool) []c04Params {
 				}
 			}
 		}
+		for _, cp := range []int{5, 6, 7, 12} {
+			for _, b := range c04Bases(cp) {
+				out = append(out, c04Params{Cap: cp, Producers: 1, Puts: cp, Pops: 4, Base: b, Bound: -1})
+			}
+		}
 		return out
 	}
+	// capacities that are not powers of two (index arithmetic), one producer filling the queue while the consumer drains
+	for _, cp := range []int{3, 5, 6} {
+		for _, b := range c04Bases(cp) {
+			out = append(out, c04Params{Cap: cp, Producers: 1, Puts: cp, Pops: 4, Base: b, Bound: -1})
+		}
+	}
+	out = append(out, c04Params{Cap: 3, Producers: 2, Puts: 1, Pops: 2, Base: 2, Bound: -1}, c04Params{Cap: 3, Producers: 2, Puts: 2, Pops: 3, Base: 0, Bound: -1})
 	for _, cp := range []int{1, 2} {
 		for _, pr := range []int{1, 2} {
 			for _, k := range []int{1, 2} {
